@@ -659,6 +659,8 @@ class Workspace(AbstractContextManager):
         for key, value in referents.items():
             if value() is None:
                 rem_list += [key]
+                if rtype == "PropertyGroups":  # stored with their object, no container
+                    continue
                 self._io_call(
                     H5Writer.remove_entity, key, rtype, parent=self, mode="r+"
                 )
